@@ -80,6 +80,22 @@ Proof.
   apply (inner_state_inv (fun st => Forall is_norm (i_ls st) /\ is_norm (i_q st))).
   intros ls u b. apply inner_step_norm.
 Qed.
+
+(* fit raises exactly on the budget 0 with at least one component *)
+Theorem cp_plsr_fit_defined n_iter ncomp X Y :
+  cp_plsr_fit Op sqrtF init ne_solve tol n_iter ncomp X Y = Err <-> (n_iter = 0 /\ 0 < ncomp).
+Proof.
+  unfold cp_plsr_fit. destruct (Nat.eqb_spec n_iter 0) as [->|Hn]; destruct (Nat.ltb_spec 0 ncomp) as [Hc|Hc]; cbn [andb];
+    split; try discriminate; try (intros [? ?]; lia); auto.
+Qed.
+Lemma cp_plsr_fit_ok n_iter ncomp X Y r :
+  cp_plsr_fit Op sqrtF init ne_solve tol n_iter ncomp X Y = Ok r -> r = fit_cp Op sqrtF init ne_solve tol n_iter ncomp X Y.
+Proof. unfold cp_plsr_fit. destruct ((n_iter =? 0) && (0 <? ncomp)); [discriminate | intros H; now injection H]. Qed.
+
+Theorem plsr_fit_loadings_normalized n_iter ncomp X Y r c :
+  cp_plsr_fit Op sqrtF init ne_solve tol n_iter ncomp X Y = Ok r -> In c (comps r) ->
+  Forall is_norm (c_load c) /\ is_norm (c_yload c).
+Proof. intros H. rewrite (cp_plsr_fit_ok _ _ _ _ _ H). apply plsr_loadings_normalized. Qed.
 End Norm.
 
 (* ------------------------------------------------------------------ re-ordering the samples *)
@@ -295,6 +311,24 @@ Proof.
   split; [apply map_pick_comp_score|]. split; [apply map_pick_comp_yscore|].
   intros Xn. unfold fit_predict, loadings, coef_of, yload_of. cbn [X_mean_ Y_mean_ comps].
   rewrite map_pick_comp_load, map_pick_comp_yload, map_pick_comp_B, map_length. reflexivity.
+Qed.
+
+(* the same about fit as the source behaves (budget 0 rejected): the permuted run succeeds iff the original does *)
+Theorem plsr_fit_perm_equivariance n_iter ncomp X Y sx m r : shape X = n :: sx -> shape Y = [n; m] -> 0 < m ->
+  cp_plsr_fit Op sqrtF init ne_solve tol n_iter ncomp X Y = Ok r ->
+  exists r', cp_plsr_fit Op sqrtF init ne_solve tol n_iter ncomp (perm X) (perm Y) = Ok r' /\
+  X_mean_ r' = X_mean_ r /\ Y_mean_ r' = Y_mean_ r /\
+  loadings r' = loadings r /\
+  map (c_yload (F:=F)) (comps r') = map (c_yload (F:=F)) (comps r) /\
+  map (c_B (F:=F)) (comps r') = map (c_B (F:=F)) (comps r) /\
+  fitted_scores r' = map pk (fitted_scores r) /\
+  map (c_yscore (F:=F)) (comps r') = map pk (map (c_yscore (F:=F)) (comps r)) /\
+  forall Xn, fit_predict Op r' Xn = fit_predict Op r Xn.
+Proof.
+  intros HX HY Hm H. pose proof (cp_plsr_fit_ok Op sqrtF init ne_solve tol _ _ _ _ _ H) as ->.
+  exists (fit_cp Op sqrtF init ne_solve tol n_iter ncomp (perm X) (perm Y)). split.
+  - unfold cp_plsr_fit in *. destruct ((n_iter =? 0) && (0 <? ncomp)); [discriminate | reflexivity].
+  - exact (plsr_perm_equivariance n_iter ncomp X Y sx m HX HY Hm).
 Qed.
 End PermFit.
 
